@@ -7,6 +7,7 @@ ROOT=$(pwd)
 export GOFLAGS=-mod=mod GOPROXY=off GOSUMDB=off GOTOOLCHAIN=local GONOSUMDB=* GONOSUMCHECK=1 GOFLAGS=-mod=mod
 PROP=$1
 TIER=${2:-quick}
+RACE_PROPS="C06"
 mkdir -p "$ROOT/bin" "$ROOT/evidence" "$ROOT/replays"
 cp /repo/go.sum "$ROOT/sim/go.sum" 2>/dev/null
 if ! (cd "$ROOT/sim" && go build -tags verif -o "$ROOT/bin/walsim" ./cmd/walsim) > "$ROOT/bin/build.log" 2>&1; then
@@ -14,4 +15,17 @@ if ! (cd "$ROOT/sim" && go build -tags verif -o "$ROOT/bin/walsim" ./cmd/walsim)
   tail -30 "$ROOT/bin/build.log"
   exit 2
 fi
-exec "$ROOT/bin/walsim" check -prop "$PROP" -tier "$TIER" -root "$ROOT"
+RACEARG=""
+case " $RACE_PROPS " in *" $PROP "*)
+  # race stage: the same simulator built with the race detector. The harness
+  # packages are compiled without instrumentation and hand over between tasks
+  # through polled plain words (tag edgefree), so the detector sees only the
+  # synchronisation raft-wal performs itself.
+  if ! (cd "$ROOT/sim" && go build -race -tags "verif edgefree" -gcflags='verif/sim/...=-race=false' -o "$ROOT/bin/walsim-race" ./cmd/walsim) > "$ROOT/bin/build-race.log" 2>&1; then
+    echo "CHECK-TROUBLE: race build of walsim against /repo failed (exit 2, not a violation):"
+    tail -30 "$ROOT/bin/build-race.log"
+    exit 2
+  fi
+  RACEARG="-racebin $ROOT/bin/walsim-race";;
+esac
+exec "$ROOT/bin/walsim" check -prop "$PROP" -tier "$TIER" -root "$ROOT" $RACEARG
